@@ -115,7 +115,11 @@ def new_cert(key_name, issuer_id_component, pub_key, signer, start_time, end_tim
 
 def self_sign(key_name, pub_key, signer) -> tuple[FormalName, VarBinaryStr]:
     end_time = datetime.now(UTC)
-    end_time = end_time.replace(year=end_time.year + 20)
+    try:
+        end_time = end_time.replace(year=end_time.year + 20)
+    except ValueError:
+        # Today is 29 Feb and the year 20 years from now is not a leap year
+        end_time = end_time.replace(year=end_time.year + 20, day=28)
     return new_cert(key_name, SELF_COMPONENT, pub_key, signer,
                     datetime.fromisoformat('1970-01-01T00:00:00'), end_time)
 
